@@ -1,5 +1,8 @@
 import Toq.Driver.Util
+import Toq.Driver.QJson
 import Toq.Model.Rand
+import Toq.Model.RandDraws
+import Toq.Model.RandPost
 import Toq.Core.Scalar
 /-! Driver handlers for C19: the seeding state machine on a symbolic world (predicted equality pattern of a call
 history), the Schmidt-rank construction of `random_state_vector` on Gaussian integers, the axis layout of `random_povm`. -/
@@ -78,7 +81,178 @@ def hPovmLayout : Handler := fun j => do
     return o
   return Json.mkObj [("shape", natListJson [d, d, ni, no]), ("data", natListJson out.toList)]
 
+/-! ## draw programs -/
+
+def distName : Dist → String
+  | .random => "random"
+  | .standardNormal => "standard_normal"
+  | .normal => "normal"
+
+def evJson : Ev → Json
+  | .construct => Json.arr #[Json.str "construct"]
+  | .draw d => Json.arr #[Json.str (distName d.dist), natListJson d.shape]
+
+/-- `dim` is a JSON number (Python int) or an array (Python list) -/
+def getDimArg (j : Json) (k : String) : Except String DimArg := do
+  let v ← j.getObjVal? k
+  match v with
+  | .arr _ => return .list (← asNatList v)
+  | _ => return .int (← v.getNat?)
+
+def parseCall (j : Json) : Except String Call := do
+  let fn ← (← j.getObjVal? "fn").getStr?
+  match fn with
+  | "unitary" => return .unitary (← getDimArg j "dim") (← getBool j "is_real")
+  | "density" =>
+      let k := if isNull j "k_param" then none else (getNat j "k_param").toOption
+      return .density (← getNat j "dim") (← getBool j "is_real") k (← getBool j "bures")
+  | "psd" => return .psd (← getNat j "dim") (← getBool j "is_real")
+  | "basis" => return .basis (← getNat j "dim") (← getBool j "is_real")
+  | "state_vector" => return .stateVector (← getDimArg j "dim") (← getBool j "is_real") (← getNat j "k_param")
+  | "states" => return .states (← getNat j "n") (← getNat j "d")
+  | "povm" => return .povm (← getNat j "dim") (← getNat j "num_inputs") (← getNat j "num_outputs")
+  | "circulant" => return .circulant (← getNat j "dim")
+  | "ginibre" => return .ginibre (← getNat j "n") (← getNat j "m")
+  | _ => throw s!"c19_trace: unknown generator {fn}"
+
+/-- the events of a generator call in program order and the shape of what it returns, or the exception it raises -/
+def hTrace : Handler := fun j => do
+  let c ← parseCall j
+  match trace c, outShape c with
+  | .ok evs, .ok sh =>
+      return Json.mkObj [("events", Json.arr (evs.map evJson).toArray), ("shape", natListJson sh),
+        ("constructions", Json.num (constructions evs)), ("scalars", Json.num (scalars evs))]
+  | .error e, _ => return reject e
+  | _, .error e => return reject e
+
+/-! ## exact post-processing on Gaussian integers (the caller keeps track of the binary exponents) -/
+
+/-- `{"re":[…],"im":[…]}` row-major with `cols` columns (`im` optional) -/
+def getGIMat (j : Json) (key : String) (rows cols : Nat) : Except String (Nat → Nat → GI) := do
+  let o ← j.getObjVal? key
+  let re ← getIntArray o "re"
+  let im := (getIntArray o "im").toOption.getD (Array.replicate (rows * cols) 0)
+  if re.size != rows * cols || im.size != rows * cols then throw s!"{key}: expected {rows}x{cols} entries, got {re.size}"
+  let a : Array GI := (Array.range (rows * cols)).map fun t => ⟨re[t]!, im[t]!⟩
+  return matOfArray a cols
+
+def memo (rows cols : Nat) (f : Nat → Nat → GI) : Nat → Nat → GI := matOfArray (arrayOfMat rows cols f) cols
+
+def giMatJson (rows cols : Nat) (f : Nat → Nat → GI) : Json :=
+  let a := arrayOfMat rows cols f
+  Json.mkObj [("re", intArrayJson (a.map (·.re))), ("im", intArrayJson (a.map (·.im)))]
+
+/-- `random_density_matrix`: numerator `F Fᴴ` and its trace for the final factor `F` (`G` itself, or the Bures factor as
+written, from the returned unitary `U` and `G` at a common binary exponent) -/
+def hDensity : Handler := fun j => do
+  let d ← getNat j "dim"
+  let k ← getNat j "k"
+  let G ← getGIMat j "G" d k
+  let bures ← getBool j "bures"
+  if bures then
+    match buresCols d k with
+    | none => return reject "ValueError"
+    | some c =>
+      let U ← getGIMat j "U" d d
+      let F := memo d c (buresFactor d k U G)
+      let N := memo d d (densityNum GI.conj c F)
+      return Json.mkObj [("num", giMatJson d d N), ("tr", giMatJson 1 1 (fun _ _ => trc d N)), ("cols", Json.num c)]
+  else
+    let N := memo d d (densityNum GI.conj k G)
+    return Json.mkObj [("num", giMatJson d d N), ("tr", giMatJson 1 1 (fun _ _ => trc d N)), ("cols", Json.num k)]
+
+/-- `random_unitary`: `Uᴴ G` and `Uᴴ U` -/
+def hUnitaryRel : Handler := fun j => do
+  let d ← getNat j "dim"
+  let U ← getGIMat j "U" d d
+  let G ← getGIMat j "G" d d
+  return Json.mkObj [("rel", giMatJson d d (unitaryRel GI.conj d U G)), ("gram", giMatJson d d (gramOf GI.conj d U))]
+
+/-- `random_psd_operator`: `A·A` and `(Rᴴ+R)·(Rᴴ+R)` (`= 4 H·H`), `A` and `R` at a common binary exponent -/
+def hPsdRel : Handler := fun j => do
+  let d ← getNat j "dim"
+  let A ← getGIMat j "A" d d
+  let R ← getGIMat j "R" d d
+  let H2 := memo d d (hermTwice GI.conj R)
+  return Json.mkObj [("aa", giMatJson d d (mmul d A A)), ("hh4", giMatJson d d (mmul d H2 H2)), ("h2", giMatJson d d H2)]
+
+/-- `random_povm`, one input setting: normaliser `Σ A_yᴴ A_y`, `U diag(s) Uᴴ`, `Uᴴ U` and the cores `(A_y U)ᴴ (A_y U)` -/
+def hPovm : Handler := fun j => do
+  let d ← getNat j "dim"
+  let no ← getNat j "num_outputs"
+  let blocks ← (← j.getObjVal? "A").getArr?
+  if blocks.size != no then throw "c19_povm: wrong number of blocks"
+  let As ← blocks.toList.mapM fun b => do
+    let re ← asIntArray (← b.getObjVal? "re")
+    if re.size != d * d then throw "c19_povm: block size"
+    let a : Array GI := re.map fun z => ⟨z, 0⟩
+    return (matOfArray a d : Nat → Nat → GI)
+  let A : Nat → Nat → Nat → GI := fun y => As.getD y (fun _ _ => 0)
+  let U ← getGIMat j "U" d d
+  let s ← getIntArray j "s"
+  if s.size != d then throw "c19_povm: s size"
+  let sv : Nat → GI := fun i => ⟨s[i]!, 0⟩
+  let cores := (List.range no).map fun y => giMatJson d d (povmCore GI.conj d (A y) U)
+  return Json.mkObj [("normaliser", giMatJson d d (povmNormaliser GI.conj d no A)),
+    ("recon", giMatJson d d (eigRecon GI.conj d U sv)), ("gram", giMatJson d d (gramOf GI.conj d U)),
+    ("cores", Json.arr cores.toArray)]
+
+/-- pretty good measurement: `S Aᵢ S` for every `Aᵢ = pᵢρᵢ`, `S (Σ Aᵢ) S`, and `S − Sᴴ` -/
+def hPgm : Handler := fun j => do
+  let d ← getNat j "dim"
+  let S ← getGIMat j "S" d d
+  let items ← (← j.getObjVal? "A").getArr?
+  let As ← items.toList.mapM fun b => getGIMat (Json.mkObj [("x", b)]) "x" d d
+  let n := As.length
+  let A : Nat → Nat → Nat → GI := fun y => As.getD y (fun _ _ => 0)
+  let P := memo d d (msum n A)
+  let elems := As.map fun a => giMatJson d d (pgmElem d S a)
+  return Json.mkObj [("elems", Json.arr elems.toArray), ("sps", giMatJson d d (pgmElem d S P)),
+    ("antiherm", giMatJson d d (fun i k => S i k - GI.conj (S k i)))]
+
+/-! ## `measure` on exact rationals -/
+
+def getQIMat (j : Json) (rows cols : Nat) : Except String (Nat → Nat → QI) := do
+  let e := (getNat j "e").toOption.getD 0
+  let re ← getIntArray j "re"
+  let im := (getIntArray j "im").toOption.getD (Array.replicate (rows * cols) 0)
+  if re.size != rows * cols || im.size != rows * cols then throw s!"measure: expected {rows}x{cols} entries, got {re.size}"
+  let a : Array QI := (Array.range (rows * cols)).map fun t => ⟨dyadic re[t]! e, dyadic im[t]! e⟩
+  return matOfArray a cols
+
+def optBoolJson : Option Bool → Json
+  | some true => Json.num (1 : Int)
+  | some false => Json.num (0 : Int)
+  | none => Json.num (-1 : Int)
+
+def qiMatJson (rows cols : Nat) (f : Nat → Nat → QI) : Json :=
+  let a := arrayOfMat rows cols f
+  Json.mkObj [("re", Json.arr (a.map (ratJson ·.re))), ("im", Json.arr (a.map (ratJson ·.im)))]
+
+/-- `measure(state, ops, tol, state_update)`: per operator the Born probability, whether it exceeds `tol`, the post-measurement
+state; for the list form whether the completeness check raises -/
+def hMeasure : Handler := fun j => do
+  let d ← getNat j "dim"
+  let m ← getNat j "rows"
+  let tol ← getRat j "tol"
+  let upd ← getBool j "state_update"
+  let single ← getBool j "single"
+  let ρ ← getQIMat (← j.getObjVal? "rho") d d
+  let opsJ ← (← j.getObjVal? "ops").getArr?
+  let Ks ← opsJ.toList.mapM fun o => getQIMat o m d
+  let outs := Ks.map fun K =>
+    let o := measureOne d tol K ρ m
+    let post := matOfArray (arrayOfMat o.postDim o.postDim o.post) o.postDim
+    ({ o with post := post } : MeasOutcome)
+  let K : Nat → Nat → Nat → QI := fun i => Ks.getD i (fun _ _ => 0)
+  let raises := if single then some false else measureRaises d m Ks.length tol upd K outs
+  let outsJ := outs.map fun o => Json.mkObj [("prob", ratJson o.prob), ("positive", optBoolJson o.positive),
+    ("post_dim", Json.num o.postDim), ("post", qiMatJson o.postDim o.postDim o.post)]
+  return Json.mkObj [("outcomes", Json.arr outsJ.toArray), ("raises", optBoolJson raises)]
+
 def handlers : List (String × Handler) :=
-  [("c19_history", hHistory), ("c19_sv_raw", hSvRaw), ("c19_povm_layout", hPovmLayout)]
+  [("c19_history", hHistory), ("c19_sv_raw", hSvRaw), ("c19_povm_layout", hPovmLayout), ("c19_trace", hTrace),
+   ("c19_density", hDensity), ("c19_unitary_rel", hUnitaryRel), ("c19_psd_rel", hPsdRel), ("c19_povm", hPovm),
+   ("c19_pgm", hPgm), ("c19_measure", hMeasure)]
 
 end Toq.Driver.C19
